@@ -3,6 +3,7 @@ package limitscanner
 import (
 	"bytes"
 	"errors"
+	"github.com/PowerDNS/lightningstream/utils/verifhook"
 	"time"
 
 	"github.com/PowerDNS/lmdb-go/lmdb"
@@ -19,6 +20,7 @@ func NewLimitScanner(opt Options) (*LimitScanner, error) {
 	if opt.LimitDurationCheckEvery <= 0 {
 		opt.LimitDurationCheckEvery = LimitDurationCheckEveryDefault
 	}
+	opt.LimitRecords = verifhook.Int("limitscanner.records", opt.LimitRecords)
 	ls := &LimitScanner{
 		opt: opt,
 		sc:  lmdbscan.New(opt.Txn, opt.DBI),
